@@ -18,11 +18,18 @@
   `list` AND, for every non-root caller, inside `check_access_with_permission`, `has_access` and
   `get_permission` before the graph is consulted — so every guarded operation drops expired grants
   (a state change that survives a failed check) before it decides.  The `vault_secret:` node record
-  no longer carries the secret name.  The pre-fix behaviours are kept as `…Old` definitions at the
-  end of the file, only for the `_witness` theorems.
+  no longer carries the secret name.  After ad58047e the three authorisation entry points refuse, before
+  anything else, a requester STRING that is a secret's graph-node key (`vault_secret:…`): such a string is
+  not an identity, and the `source == target ⇒ Admin` shortcut of the path search must not see it.
+  The pre-fix behaviours are kept as `…Old` definitions at the end of the file, only for the `_witness`
+  theorems.
 
   Identities, secret names and secret values are alpha-renamed to `Nat`.  Graph nodes are `Nat`:
   entity `e` ↦ `2*e`, secret `s` ↦ `2*s+1` (its `vault_secret:<obf>` node).  Root is entity 0.
+  A REQUESTER is a string chosen by the caller; besides the identities `0, 1, 2, …` the requester numbers
+  `nodeKeyBase + s` stand for the strings `vault_secret:<obfuscated s>` — the graph key of secret `s`'s own
+  node (`nodeKeyReq`, `isNodeKey`, `reqNode`).  Grantees, delegation children and the endpoints of raw edges
+  are identities or raw nodes.
   Time is an explicit `now` argument of every step.
 -/
 namespace Neumann.Vault
@@ -84,6 +91,16 @@ abbrev Graph := List Edge
 
 def entNode (e : Nat) : Nat := 2 * e
 def secNode (s : Nat) : Nat := 2 * s + 1
+
+/-- requester numbers from here on are not identities: `nodeKeyBase + s` is the string `vault_secret:<obf s>` -/
+def nodeKeyBase : Nat := 2000000
+/-- the requester string equal to the graph key of secret `s`'s node -/
+def nodeKeyReq (s : Nat) : Nat := nodeKeyBase + s
+/-- `Vault::is_secret_node_key(requester)`: `requester.starts_with("vault_secret:")` -/
+def isNodeKey (req : Nat) : Bool := decide (nodeKeyBase ≤ req)
+/-- the graph node a requester string names (`get_or_create_entity_node` looks nodes up by that very string):
+    an identity's own node, or — for a secret-node key — the secret's node itself -/
+def reqNode (req : Nat) : Nat := if isNodeKey req then secNode (req - nodeKeyBase) else entNode req
 
 def EKind.isAccess : EKind → Bool
   | .access .. => true | .member => false | .other => false
@@ -383,21 +400,24 @@ def ttlRemove (l : List TtlEntry) (ent sec : Nat) : List TtlEntry :=
 
 /-! ## the three authorisation entry points (each expires grants first for a non-root caller) -/
 
-/-- `check_access_with_permission`: root passes untouched; for anybody else `cleanup_expired_grants()`
-    runs first.  Returns the state as well: the cleanup survives a failed check. -/
+/-- `check_access_with_permission`: root passes untouched; a secret-node key is refused untouched (ad58047e);
+    for anybody else `cleanup_expired_grants()` runs first.  Returns the state as well: the cleanup survives a
+    failed check. -/
 def State.checkAccess (s : State) (now req sec : Nat) (need : Level) : State × Except Err Unit :=
   if req = root then (s, .ok ())
+  else if isNodeKey req then (s, .error .denied)
   else
     let s' := s.cleanup now
     (s', s'.checkGraph req sec need)
 
 /-- `has_access` (its answer; its only state effect is `cleanup now`, see `State.list`) -/
 def State.hasAccess (s : State) (now req sec : Nat) : Bool :=
-  req = root || ((s.cleanup now).perm req sec).isSome
+  req = root || (!isNodeKey req && ((s.cleanup now).perm req sec).isSome)
 
-/-- `get_permission` (its answer: root = Admin; its only state effect for a non-root caller is `cleanup now`) -/
+/-- `get_permission` (its answer: root = Admin, a secret-node key = None; its only state effect for any other
+    caller is `cleanup now`) -/
 def State.getPermission (s : State) (now req sec : Nat) : Option Level :=
-  if req = root then some .admin else (s.cleanup now).perm req sec
+  if req = root then some .admin else if isNodeKey req then none else (s.cleanup now).perm req sec
 
 /-- `self.check_access_with_permission(req, key, need)?; rest` -/
 def State.guarded (s : State) (now req sec : Nat) (need : Level) (rest : State → State × Resp) : State × Resp :=
@@ -622,10 +642,10 @@ def State.delegEff (s : State) (now parent : Nat) (l : Level) (secs : List Nat) 
     if pp.toNat < acc.toNat then pp else acc) l
 
 /-- `delegate`.  Every `get_permission(parent, _)` call of the two loops expires grants first when the
-    parent is not root; all of them happen at the same instant, so their combined state effect is one
-    `cleanup now` (none at all for root or for an empty secret list). -/
+    parent is neither root nor a secret-node key; all of them happen at the same instant, so their combined
+    state effect is one `cleanup now` (none at all for root, a node key or an empty secret list). -/
 def State.delegate (s : State) (now parent child : Nat) (secs : List Nat) (l : Level) (ttl : Option Nat) : State × Resp :=
-  let s' := if parent = root || secs.isEmpty then s else s.cleanup now
+  let s' := if parent = root || isNodeKey parent || secs.isEmpty then s else s.cleanup now
   match s.delegCheck now parent l secs with
   | .error e => (s', .err e)
   | .ok _ => s'.delegateApply now parent child secs (s.delegEff now parent l secs) ttl
@@ -790,7 +810,46 @@ def run (s : State) : List (Nat × Op) → State
 def init (pol : Policy := {}) (maxDeleg : Nat := 3) (maxValueSize : Nat := 65531) (maxVersions : Nat := 5) : State :=
   { pol := pol, maxDeleg := maxDeleg, maxValueSize := maxValueSize, maxVersions := maxVersions }
 
-/-! ## pre-fix behaviour — kept ONLY for the `_witness` theorems (what the code did before 4e577a4d / 31ebe3e9) -/
+/-! ## pre-fix behaviour — kept ONLY for the `_witness` theorems (what the code did before 4e577a4d / 31ebe3e9 /
+    ad58047e) -/
+
+/-- `get_permission_level_verified(requester, secret_node)` as every entry point called it before ad58047e:
+    the search starts at whatever node the requester STRING names — for a secret-node key, the secret node -/
+def State.permKeyOld (s : State) (req sec : Nat) : Option Level :=
+  permLevel s.pol s.graph (reqNode req) (secNode sec)
+
+/-- `check_access_with_permission` before ad58047e (after 4e577a4d): no test for secret-node keys -/
+def State.checkAccessKeyOld (s : State) (now req sec : Nat) (need : Level) : State × Except Err Unit :=
+  if req = root then (s, .ok ())
+  else
+    let s' := s.cleanup now
+    (s', match s'.permKeyOld req sec with
+      | some p =>
+        if p.allows need then .ok ()
+        else if checkPath s'.graph (reqNode req) (secNode sec) then .error .insufficient else .error .denied
+      | none => if checkPath s'.graph (reqNode req) (secNode sec) then .error .insufficient else .error .denied)
+
+/-- `get_permission` before ad58047e -/
+def State.getPermissionKeyOld (s : State) (now req sec : Nat) : Option Level :=
+  if req = root then some .admin else (s.cleanup now).permKeyOld req sec
+
+/-- `get` before ad58047e -/
+def State.getKeyOld (s : State) (now req sec : Nat) : State × Resp :=
+  match (s.cleanup now).checkAccessKeyOld now req sec .read with
+  | (s', .error e) => (s', .err e)
+  | (s', .ok _) =>
+    match s'.findSecret sec with
+    | none => (s', .err .notFound)
+    | some m => (s'.audit req sec "get", .value m.value)
+
+/-- `grant_with_permission` before ad58047e -/
+def State.grantKeyOld (s : State) (now req ent sec : Nat) (l : Level) : State × Resp :=
+  match s.checkAccessKeyOld now req sec .admin with
+  | (s', .error e) => (s', .err e)
+  | (s', .ok _) =>
+    if !s'.exists sec then (s', .err .notFound)
+    else ((s'.addAccess ent sec l none).audit req sec "grant" [.ident ent], .ok)
+
 
 /-- `check_access_with_permission` before 4e577a4d: the graph is consulted without expiring grants -/
 def State.checkAccessOld (s : State) (req sec : Nat) (need : Level) : Except Err Unit :=
